@@ -26,14 +26,16 @@ SIZES = {"quick": 2500, "thorough": 12000}
 
 _i = st.integers(0, 7)
 _o = st.integers(0, 5)
-PN = ["c", "r", "name", "cn", "cs", "n"]
+PN = ["c", "r", "name", "cn", "cs", "n", "ic"]
 CONST = ("c", "r", "name", "cn", "cs")
 
 
 def _ops():
     return st.one_of(
         st.tuples(st.just("new"), st.integers(0, 1), st.sampled_from(["", "", "c", "r", "name", "cn", "cs"]), _o),
-        st.tuples(st.just("set"), _i, st.integers(0, 5), _o, st.sampled_from(["attr", "update"])),
+        st.tuples(st.just("set"), _i, st.integers(0, 6), _o, st.sampled_from(["attr", "update"])),
+        st.tuples(st.just("inst_const"), _i),
+        st.tuples(st.just("pf_instance"), st.sampled_from(["cls_ro", "inst_ro"]), _o),
         st.tuples(st.just("set"), _i, st.integers(0, 4), _o, st.sampled_from(["attr", "update"])),
         st.tuples(st.just("set_same"), _i, st.integers(0, 4), st.sampled_from(["attr", "update"])),
         st.tuples(st.just("cls_set"), st.integers(0, 1), st.integers(0, 3), _o),
@@ -57,6 +59,13 @@ def _case(draw):
         [],
     ]))
     rest = [list(o) for o in draw(st.lists(_ops(), min_size=1, max_size=10))]
+    if draw(st.integers(0, 3)) == 0:
+        # a parameter made constant on one instance only, early, so that blocks are entered and left with it in place
+        rest.insert(draw(st.integers(0, len(rest))), ["inst_const", draw(_i)])
+    if draw(st.integers(0, 7)) == 0:
+        return {"scenario": "async_window", "kind": draw(st.sampled_from(["agen", "coro"])),
+                "target": draw(st.sampled_from(["c", "name", "cn", "r"])), "route": draw(st.sampled_from(["attr", "update"])),
+                "drains": draw(st.integers(1, 4)), "ops": []}
     return {"ops": head + special + rest}
 
 
@@ -68,7 +77,63 @@ class _Boom(Exception):
     pass
 
 
+def _execute_async_window(case):
+    """An asynchronous reference (async generator suspended between two items / coroutine awaiting) is pending on an
+    ordinary parameter of the object: constants and read-only parameters of that object stay locked meanwhile."""
+    import asyncio
+    res = Result()
+    K = type("K", (param.Parameterized,), {
+        "c": param.Parameter(default=[0], constant=True), "r": param.Parameter(default=[1], readonly=True),
+        "cn": param.Parameter(default=None, constant=True), "v": param.Parameter(default=0, allow_refs=True)})
+
+    async def main():
+        o = K()
+        gate = asyncio.get_running_loop().create_future()
+
+        async def agen():
+            yield 1
+            await gate
+            yield 2
+
+        async def coro():
+            await gate
+            return 2
+        o.v = agen if case["kind"] == "agen" else coro
+        for _ in range(case["drains"]):
+            await asyncio.sleep(0)
+        n = case["target"]
+        before = getattr(o, n)
+        new = "other-name" if n == "name" else [42]
+        try:
+            if case["route"] == "attr":
+                setattr(o, n, new)
+            else:
+                o.param.update(**{n: new})
+        except TypeError:
+            pass
+        else:
+            res.fail("C14.constant_rebound" if n != "r" else "C14.readonly_assigned",
+                     f"while an asynchronous reference ({case['kind']}) was pending on another parameter, {n!r} could be rebound "
+                     f"via {case['route']} (now {getattr(o, n)!r})")
+        if getattr(o, n) is not before and not res.violations:
+            res.fail("C14.held_object_changed", f"{n!r} changed although the assignment raised")
+        gate.set_result(None)
+        for _ in range(6):
+            await asyncio.sleep(0)
+        if o.v != 2:
+            res.fail("C14.async_reference_lost", f"the pending reference did not complete normally afterwards (v={o.v!r})")
+        for pn in ("c", "cn", "name", "r"):
+            if K.param[pn].constant is not True or o.param[pn].constant is not True:
+                res.fail("C14.flag_not_restored", f"constant flag of {pn!r} is down after the reference completed")
+    asyncio.run(main())
+    res.label("scenario:async_window", "kind:" + case["kind"], "target:" + case["target"])
+    res.nontrivial = True
+    return res
+
+
 def execute(case):
+    if case.get("scenario") == "async_window":
+        return _execute_async_window(case)
     res = Result()
     # value pool: index 4 is equal to index 0 but a distinct object
     objs = [[0], [1], [2], [3], [0], [5]]
@@ -81,6 +146,12 @@ def execute(case):
         "cn": param.Parameter(default=None, constant=True),
         "cs": param.Parameter(default=ints[1], constant=True),
         "n": param.Number(default=1),
+        "ic": param.Parameter(default=objs[3]),          # an ordinary parameter; may be made constant on one instance
+    })
+    KF = type("KF", (param.ParameterizedFunction,), {
+        "c": param.Parameter(default=objs[0], constant=True),
+        "ro": param.Parameter(default=objs[1], readonly=True),
+        "__call__": lambda self, **kw: None,
     })
     K2 = type("K2", (K,), {})
     classes = [K, K2]
@@ -99,12 +170,14 @@ def execute(case):
                 p = rec["obj"]._param__private.params.get(n)   # read-only inspection, creates nothing
                 if p is not None:
                     out[(idx, n)] = p.constant
+            if rec.get("iconst"):
+                out[(idx, "ic")] = rec["obj"]._param__private.params["ic"].constant
         return out
 
     def check_held(tag):
         for idx, rec in enumerate(insts):
             mark = "[foreign-block] " if rec["foreign"] else ""
-            for n in CONST:
+            for n in CONST + (("ic",) if rec.get("iconst") else ()):
                 got = getattr(rec["obj"], n)
                 if got is not rec["held"][n]:
                     res.fail("C14.held_object_changed",
@@ -142,7 +215,7 @@ def execute(case):
                 continue
             o = cls(**kw)
             held = {"c": kw.get("c", cls.c), "r": cls.r, "name": o.name,
-                    "cn": kw.get("cn", cls.cn), "cs": kw.get("cs", cls.cs)}
+                    "cn": kw.get("cn", cls.cn), "cs": kw.get("cs", cls.cs), "ic": cls.ic}
             for n in ("c", "cn", "cs"):
                 if n in kw and getattr(o, n) is not kw[n]:
                     res.fail("C14.ctor_value", f"{tag}: constructor keyword {n} not installed")
@@ -179,6 +252,12 @@ def execute(case):
                 if raised is not None:
                     res.fail("C14.normal_param", f"{tag}: setting the ordinary parameter raised {raised!r}")
                 continue
+            if n == "ic" and not rec.get("iconst"):
+                if raised is not None:
+                    res.fail("C14.normal_param", f"{tag}: setting the ordinary parameter ic raised {raised!r}")
+                else:
+                    rec["held"]["ic"] = v
+                continue
             identical = v is rec["held"][n]
             if state["sub_cls_set"] or state["bad_exit"] or state["nested"] or state["copy"]:
                 if not identical and not (idx in owners):
@@ -211,6 +290,28 @@ def execute(case):
                                                      f"edit_constant (now {getattr(o, n)!r})")
                     rec["held"][n] = getattr(o, n)
                 res.label("forbidden_attempt" if not identical else "identical_attempt")
+        elif kind == "inst_const":
+            # the flag is raised on one instance's own Parameter object only (the class and the others stay ordinary)
+            if not insts or stack:
+                continue
+            rec = insts[op[1] % len(insts)]
+            rec["obj"].param.ic.constant = True
+            rec["iconst"] = True
+            rec["held"]["ic"] = rec["obj"].ic
+            state["copy"] = True
+            res.label("instance_level_constant")
+        elif kind == "pf_instance":
+            # ParameterizedFunction.instance(): another constructor route
+            v = objs[op[2]]
+            try:
+                made = KF.instance(ro=v) if op[1] == "cls_ro" else KF.instance().instance(ro=v)
+            except TypeError:
+                made = None
+            if made is not None and made.ro is v:
+                res.fail("C14.readonly_ctor", f"{tag}: ParameterizedFunction.instance(ro=...) ({op[1]}) built an object whose "
+                                              f"readonly parameter holds the given object")
+            res.label("pf_instance:" + op[1])
+            continue
         elif kind == "cls_set":
             cls = classes[op[1]]
             n = ["c", "r", "cn", "cs"][op[2]]
@@ -279,7 +380,7 @@ def execute(case):
     # final probe: nothing can be rebound now
     for idx, rec in enumerate(insts):
         mark = "[foreign-block] " if rec["foreign"] else ""
-        for n, v in (("c", [99]), ("name", "zz"), ("r", [98]), ("cn", [97]), ("cs", 96)):
+        for n, v in (("c", [99]), ("name", "zz"), ("r", [98]), ("cn", [97]), ("cs", 96)) + ((("ic", [95]),) if rec.get("iconst") else ()):
             try:
                 setattr(rec["obj"], n, v)
             except TypeError:
